@@ -172,8 +172,8 @@ def jobs_for(pid, tier, seed):
                       thread_mode=True, prefix=(('get', 'T1', 0), ('get', 'T2', 0)), cancel=False, probe=False, lifo=False, max_gets=1))
         J.append(mfam('thread level: a resize() on a task thread racing close() (1 object out, returned afterwards)', ['C06'], 12 if q else 16, tasks=2, env={'create': ('ok',), 'recycle': ('ok',)}, ctl=('close', 'status'), max_ctl=2,
                       thread_mode=True, prefix=(('get', 'T2', 0),), task_ctl={'T1': (('resize', 2), ('resize', 0))}, cancel=False, take=False, probe=False, lifo=False, max_gets=1, max_size_concrete=1))
-        J.append(mfam('thread level: retain() racing close() (1 idle object, 1 out)', ['C06', 'C09'], 12 if q else 16, tasks=2, env={'create': ('ok',), 'recycle': ('ok',)}, ctl=('close', 'retain'), max_ctl=2,
-                      thread_mode=True, prefix=(('get', 'T1', 0), ('get', 'T2', 0), ('drop', 'T1', 0)), cancel=False, take=False, probe=False, lifo=False, max_gets=1, max_size_concrete=2))
+        J.append(mfam('thread level: retain() racing a close() issued by a task thread (1 idle object, 1 out)', ['C06', 'C09'], 12 if q else 16, tasks=2, env={'create': ('ok',), 'recycle': ('ok',)}, ctl=('retain', 'status'), max_ctl=2,
+                      thread_mode=True, prefix=(('get', 'T1', 0), ('get', 'T2', 0), ('drop', 'T1', 0)), task_ctl={'T1': (('close',),)}, cancel=False, take=False, probe=False, lifo=False, max_gets=1, max_size_concrete=2))
         J.append(mfam('thread level: close() on a task thread racing retain() while a waiter holds the assigned permit of the idle object (max_size 1; callbacks under the lock are schedule points iff the crate probes locks)',
                       ['C06'], 14 if q else 18, tasks=2, env={'create': ('ok',), 'recycle': ('ok',)}, ctl=('retain',), max_ctl=1, thread_mode=True,
                       prefix=(('get', 'T2', 0), ('get', 'T1', 0), ('drop', 'T2', 0)), task_ctl={'T2': (('close',),)}, cancel=True, take=False, probe=False, lifo=False, max_gets=1, max_size_concrete=1))
